@@ -376,6 +376,10 @@ class SingleMarker(SingleMarkerLike[Union[BaseConstraint, VersionConstraint]]):
         parsed_constraint: BaseConstraint | VersionConstraint
         parser: Callable[[str], BaseConstraint | VersionConstraint]
         original_constraint_string = constraint_string = str(constraint)
+        if isinstance(constraint, Constraint) and constraint.operator == "==":
+            # str() omits "==": a bare value such as "inotify" or "interix" would be
+            # read below as the operator "in" followed by the value "otify"
+            original_constraint_string = constraint_string = f"=={constraint_string}"
         self._swapped_name_value: bool = swapped_name_value
 
         if swapped_name_value:
